@@ -321,16 +321,16 @@ inductive CExpr where
   | join (sep : Str) (e : CExpr)     -- `e|join('sep')`
   deriving Repr
 
+mutual
 /-- the consumer-free fragment sits inside -/
 def Expr.toC : Expr → CExpr
   | .ref p => .ref p
   | .dflt x d => .dflt x d
-  | .coll k items => .coll k (items.attach.map fun ⟨kv, _⟩ => (kv.1, Expr.toC kv.2))
-termination_by e => sizeOf e
-decreasing_by
-  simp_wf
-  have := List.sizeOf_lt_of_mem ‹_›
-  cases kv; simp_all; omega
+  | .coll k items => .coll k (itemsToC items)
+def itemsToC : List (Str × Expr) → List (Str × CExpr)
+  | [] => []
+  | (k, e) :: rest => (k, e.toC) :: itemsToC rest
+end
 
 def PVal.isDict : PVal → Bool
   | .val (.record _) => true
